@@ -3,9 +3,9 @@ from __future__ import annotations
 
 import ast
 
-from ..astutil import dotted, is_none, norm, strip_docstring, walk_body
+from ..astutil import alpha, dotted, is_none, norm, strip_docstring, walk_body
 from ..digest import Dyn, Loop, contributions, describe
-from ..dtree import decision_tree
+from ..dtree import bool_function, check_formula, decision_tree
 from ..finite import k_eq, k_is, k_none
 from ..report import Checker
 from ..srcmodel import Func, Unsupported
@@ -41,22 +41,32 @@ def r_leg_ident(ck: Checker) -> None:
     else:
         ck.violation("R-LEG-IDENT", a, a.node, what, construct=f"ancestors: {v.why}")
     d = ck.repo.func(LNODE, f"{CLS}.detached")
-    rets = [s for s in walk_body(d.node.body) if isinstance(s, ast.Return)]
     what = "detached means: the registry entry under the node's id is not this very node"
-    ok = len(rets) == 1 and norm(rets[0].value) in ("AwareASTNode._nodes.get(self.id) is not self",)
-    (ck.holds if ok else ck.violation)("R-LEG-IDENT", d, d.node, what, **({} if ok else {"construct": f"detached returns {[norm(r.value) for r in rets]}"}))
+    k_reg = k_is("AwareASTNode._nodes.get(self.id)", "self")
+    rows = bool_function(strip_docstring(d.node.body), resolve=True)
+    bad = check_formula(rows, [k_reg], lambda a: not a[k_reg], where=d.node)
+    if bad:
+        ck.violation("R-LEG-IDENT", d, d.node, what, evaluations=len(rows), construct=f"detached: {bad[0]}")
+    else:
+        ck.holds("R-LEG-IDENT", d, d.node, what, evaluations=len(rows))
 
 
 def r_leg_propagate(ck: Checker) -> None:
     f = ck.repo.func(LNODE, f"{CLS}._reset_content_id")
     body = strip_docstring(f.node.body)
     what = "_reset_content_id refreshes the node and then every ancestor up to the root"
-    ok = False
-    if len(body) == 2 and isinstance(body[0], (ast.Assign, ast.AnnAssign)) and isinstance(body[1], ast.While):
-        v = norm(body[0].target if isinstance(body[0], ast.AnnAssign) else body[0].targets[0])
-        ok = norm(body[0].value) == "self" and norm(body[1].test) == f"{v} is not None" \
-            and [norm(s) for s in body[1].body] == [f"{v}._set_content_id()", f"{v} = {v}.parent"]
-    (ck.holds if ok else ck.violation)("R-LEG-PROPAGATE", f, f.node, what, **({} if ok else {"construct": "_reset_content_id: ancestor loop not recognised / wrong"}))
+    from ..loops import chain_generator
+
+    def emit(n: ast.AST) -> str | None:
+        if isinstance(n, ast.Call) and isinstance(n.func, ast.Attribute) and n.func.attr == "_set_content_id" and not n.args and not n.keywords:
+            return norm(n.func.value)
+        return None
+
+    v = chain_generator(body, "self", lambda x: f"{x}.parent", None, emit=emit, include_start=True)
+    if v.ok:
+        ck.holds("R-LEG-PROPAGATE", f, f.node, what, evaluations=v.evaluations, proof=v.why)
+    else:
+        ck.violation("R-LEG-PROPAGATE", f, f.node, what, construct=f"_reset_content_id: {v.why}")
     g = ck.repo.func(LNODE, f"{CLS}._replace_child")
     # the statement(s) after the structural update
     leaves = decision_tree([st for st in strip_docstring(g.node.body) if isinstance(st, ast.If) and "_reset_content_id" in norm(st)])
@@ -134,8 +144,12 @@ def r_leg_link(ck: Checker) -> None:
             bad.append("None child gets a parent")
         if in_seq and removed:
             shift = [s for s in lf.stmts if isinstance(s, ast.For)]
-            ok = len(shift) == 1 and "orig_seq[index + 1:]" in norm(shift[0].iter) and any(
-                "._set_parent(self, field, " in norm(x) and ("parent_index) - 1" in norm(x) or "parent_index - 1" in norm(x)) for x in shift[0].body)
+            from ..normalize import resolve_path
+            ok = False
+            if len(shift) == 1 and norm(shift[0].iter) == "orig_seq[index + 1:]" and isinstance(shift[0].target, ast.Name):
+                sib = shift[0].target.id
+                sbody = [norm(x) for x in resolve_path(shift[0].body)]
+                ok = f"{sib}._set_parent(self, field, {sib}.parent_index - 1)" in sbody
             if not ok:
                 bad.append("removing a sequence element does not shift the later siblings' indices by -1")
             if not any("[*orig_seq[:index], *orig_seq[index + 1:]]" in s for s in st):
@@ -151,14 +165,32 @@ def r_leg_link(ck: Checker) -> None:
     dt = ck.repo.func(LNODE, f"{CLS}.detach")
     loops = [st for st in dt.node.body if isinstance(st, ast.For) and norm(st.iter) == "self.get_child_nodes()"]
     what = "detach clears the parent triple of every child, detaches the subtree unless only_self, and pops the registry entry"
-    ok = False
-    if len(loops) == 1:
-        c = norm(loops[0].target)
-        b = [norm(s) for s in loops[0].body]
-        ok = b and b[0] == f"{c}._clear_parent()" and any(isinstance(s, ast.If) and norm(s.test) == "not only_self" and norm(s.body[0]) == f"{c}.detach()" for s in loops[0].body)
-        after = dt.node.body[dt.node.body.index(loops[0]) + 1:]
-        ok = ok and any(norm(s) == "AwareASTNode._nodes.pop(self.id)" for s in after)
-    (ck.holds if ok else ck.violation)("R-LEG-LINK", dt, dt.node, what, **({} if ok else {"construct": "detach: child unlinking / registry pop not recognised or wrong"}))
+    if len(loops) != 1 or not isinstance(loops[0].target, ast.Name):
+        raise Unsupported("detach: no single loop over self.get_child_nodes()", dt.node)
+    c = loops[0].target.id
+    bad = None
+    lv = decision_tree(loops[0].body)
+    for lf in lv:
+        calls = [norm(s) for s in lf.stmts if isinstance(s, ast.Expr) and isinstance(s.value, ast.Call)]
+        calls = [x for x in calls if not x.startswith("logger.")]
+        if set(lf.assign) - {"only_self"}:
+            raise Unsupported(f"detach: child loop decides on {sorted(lf.assign)}", dt.node)
+        if f"{c}._clear_parent()" not in calls:
+            bad = "a child keeps its parent link"
+        elif "only_self" not in lf.assign:
+            bad = "only_self is not consulted"
+        elif lf.assign["only_self"] and any(x.startswith(f"{c}.detach(") for x in calls):
+            bad = "only_self=True still detaches the children"
+        elif not lf.assign["only_self"] and not any(x.startswith(f"{c}.detach(") for x in calls):
+            bad = "the subtree is not detached"
+    after = dt.node.body[dt.node.body.index(loops[0]) + 1:]
+    pops = [n for n in walk_body(after) if isinstance(n, ast.Call) and norm(n.func) == "AwareASTNode._nodes.pop"] + \
+        [n for n in walk_body(after) if isinstance(n, ast.Delete) and any(norm(t) == "AwareASTNode._nodes[self.id]" for t in n.targets)]
+    if not bad and not any(isinstance(p, ast.Delete) or (p.args and norm(p.args[0]) == "self.id") for p in pops):
+        if any("_nodes" in norm(x) for x in after):
+            raise Unsupported("detach: registry update after the loop not recognised", dt.node)
+        bad = "the registry entry is not removed"
+    (ck.holds if not bad else ck.violation)("R-LEG-LINK", dt, dt.node, what, **({"evaluations": len(lv)} if not bad else {"construct": f"detach: {bad}"}))
 
 
 def r_leg_digest(ck: Checker) -> None:
@@ -182,7 +214,7 @@ def r_leg_digest(ck: Checker) -> None:
         for flag in ("skip_id=True", "skip_origin=True", "skip_original_id=True", "skip_id_collision_with=True", "skip_hidden=True", "skip_non_compare=True"):
             if flag not in it:
                 bad.append(f"property loop without {flag}")
-        if not it.startswith("sorted(") or "key=lambda x: x[1].name" not in it:
+        if not it.startswith("sorted(") or "key=lambda _b0: _b0[1].name" not in alpha(p.iter):
             bad.append("properties not sorted by field name")
         val, fld = (norm(x) for x in p.targets.elts)
         d = [x for x in p.body if isinstance(x, Dyn)]
@@ -191,7 +223,7 @@ def r_leg_digest(ck: Checker) -> None:
         if not any(x.src == val and x.conv in ("s", "r") and x.spec is None for x in d):
             bad.append("property value missing / truncated")
         itk = norm(k.iter)
-        if not itk.startswith("sorted(") or "key=lambda x: (x[1].name, x[2] or -1)" not in itk:
+        if not itk.startswith("sorted(") or "key=lambda _b0: (_b0[1].name, _b0[2] or -1)" not in alpha(k.iter):
             bad.append("children not sorted by (field name, index)")
         c, fl, ix = (norm(x) for x in k.targets.elts)
         d = [x for x in k.body if isinstance(x, Dyn)]
